@@ -168,6 +168,21 @@ CLAIMED = {
             "call is detected by a real-time watchdog outside the virtual-time bubble (20 s).",
             "TLC exhaustive check of Store.tla (reads + race configurations) + TLC trace validation of random, TLC-simulated and concurrent histories + race detector",
             "DESIGN.md §4 C12"),
+    "C13": ("model_checking",
+            "Store.tla models the cache as one document rewritten as a whole after the initial fetch (when something was missing), after every "
+            "lookup, after every poll that changed something and when the poller shuts down; a failing write leaves the old document; only a "
+            "well-formed document is used at start-up, anything else is ignored as a whole; a successor store starts from whatever the cache holds. "
+            "TLC checks CacheVersions and the start-up rules over cache classes x write faults x restarts. Recorded histories of the real store "
+            "(random, and TLC-simulated behaviours forced on it) are validated incl. the exact payload of every Cache.Write (names, versions, "
+            "bytes, access stamps), restarts with the service unreachable (the successor serves exactly the cached pairs without a request), and "
+            "every written document is fed to a real FileClient which must agree on every secret. Cache contents that are malformed by "
+            "construction (truncations, missing / null / mistyped members, empty name, non-object incl. null, trailing or random bytes) are fed to "
+            "the real NewStore and TLC validates that the start behaves exactly as with no cache. FileCache.Write runs in a child under strace: its "
+            "system calls are validated against AtomicFile.tla and each is made to fail or to be the instant of a SIGKILL (old or new document, 0600).",
+            "Inputs whose treatment encoding/json leaves open (duplicate keys, case-variant member names, extra members, overflowing numbers) only "
+            "have to start without panic and serve the cache's or the service's value. Power loss is decided on AtomicFile.tla given the validated call order.",
+            "TLC exhaustive check of Store.tla (cache configuration) + TLC trace validation (random, TLC-simulated, malformed-input histories) + strace fault/kill injection on FileCache.Write validated against AtomicFile.tla",
+            "DESIGN.md §4 C13"),
 }
 
 ALL = ["C%02d" % i for i in range(1, 21)]
